@@ -209,6 +209,38 @@ def rejecting_guard(body, bb, pred):
     return False
 
 
+def rejecting_fact(body, bb, want):
+    """a switch dominating bb such that on the edge towards bb a comparison (op, l, r) with want(op, l, r) is known to hold (any
+    spelling: mirrored operands, negation, `!(a < b)`) while the other edge returns Err on every path"""
+    return rejecting_guard(body, bb, lambda cond, truth: any(want(op, l, r_) for op, l, r_ in q.holds_both(cond, truth)))
+
+
+def holding_fact(body, bb, want):
+    """[switch bb] of the dominating tests on whose edge towards bb a comparison with want(op, l, r) holds"""
+    out = []
+    for cond, vals, a in q.guards(body, bb):
+        if any(want(op, l, r_) for op, l, r_ in q.holds_both(cond, q.bool_outcome(body, a, vals))):
+            out.append(a)
+    return out
+
+
+def callee_passes_only_if(body, want):
+    """the function has a test one side of which always returns Err and on the other side of which want(op, l, r) holds"""
+    for sw in q.switches_on(body, lambda d: True):
+        tm = body.blocks[sw]['term']
+        if tm['ty'] != 'bool':
+            continue
+        succs = body.cfg.succ[sw]
+        errs = [s_ for s_ in succs if q.arm_always_err(body, s_)]
+        if len(errs) != 1 or len(succs) != 2:
+            continue
+        other = [s_ for s_ in succs if s_ != errs[0]][0]
+        cond = q.switch_cond(body, sw)
+        if any(want(op, l, r_) for op, l, r_ in q.holds_both(cond, q.bool_outcome(body, sw, q.edge_value(body, sw, other)))):
+            return True
+    return False
+
+
 def rejections(body):
     """every boolean test one of whose edges always ends in Err while the other does not: [(switch bb, [(op, l, r) facts that hold on the
     rejected edge, both spellings], condition term)] - the inputs this function turns away by an explicit comparison"""
